@@ -19,6 +19,8 @@ def verify_contract(eng, prover, pid, base, fi, contract, st, args, kwargs=None,
     # contracts assumed inside the body are instantiated at them (DESIGN.md 2.4)
     st.ghost["skolem_res"] = [smt.fresh("skolem_res")]
     st.ghost["skolem_addr"] = [smt.fresh("skolem_addr", smt.IntS)]
+    eng.prover = prover
+    eng.goal_prefix = f"{pid}/def:{base}"
     pre = st.copy()
     cx0 = Cx(eng, pre, pre, b, "prove")
     for (label, r) in contract.requires(cx0):
